@@ -417,7 +417,7 @@ class Unit:
                     rule, rest = a.split(None, 1)
                     rx, repl = parse_bt(rest)
                     sigsubs.append((rule, rx, repl, False))
-                elif c in ('spec', 'loop', 'before', 'after', 'bodystart'):
+                elif c in ('spec', 'loop', 'loop?', 'before', 'after', 'bodystart'):
                     cur = (c, a, [])
                     sections.append(cur)
                 else:
@@ -464,11 +464,23 @@ class Unit:
         for kind, a, lines in sections:
             if kind == 'spec':
                 spec_lines = lines
-            elif kind == 'loop':
-                k = int(a)
-                if k < 1 or k > len(lp):
-                    raise Undecided('anchor lost in %s: loop #%d not found (%d loops)' % (rec.name, k, len(lp)))
-                inserts.append((lp[k - 1][1], lines, 'loop%d' % k))
+            elif kind in ('loop', 'loop?'):
+                ml = re.match(r'`([^`]*)`', a)
+                if ml:
+                    # loop identified by a regex on its header (keyword .. '{')
+                    hits = [l for l in lp if re.search(ml.group(1), body_new[l[0]:l[1]])]
+                    if len(hits) != 1:
+                        if kind == 'loop?' and not hits:
+                            continue
+                        raise Undecided('anchor lost in %s: loop `%s` matches %d loops' % (rec.name, ml.group(1), len(hits)))
+                    inserts.append((hits[0][1], lines, 'loop'))
+                else:
+                    k = int(a)
+                    if k < 1 or k > len(lp):
+                        if kind == 'loop?':
+                            continue
+                        raise Undecided('anchor lost in %s: loop #%d not found (%d loops)' % (rec.name, k, len(lp)))
+                    inserts.append((lp[k - 1][1], lines, 'loop%d' % k))
             elif kind == 'bodystart':
                 inserts.append((1, lines, 'bodystart'))
             else:
